@@ -45,12 +45,18 @@ class Check:
         self.quiet = quiet
         self.extra = {}
         self.selftests = []
+        self._seen = {}
 
     # ---- recording
     def ob(self, rule, function, construct, ok, site=None, detail=None, witness=None):
         """one obligation = one rule instance. `construct` must not contain line numbers."""
+        key = (rule, function, construct, bool(ok))
+        if key in self._seen:
+            self._seen[key]["instances"] = self._seen[key].get("instances", 1) + 1
+            return ok
         rec = {"rule": rule, "function": function, "construct": construct,
                "verdict": "discharged" if ok else "VIOLATED"}
+        self._seen[key] = rec
         if site is not None:
             rec["site"] = site
         if detail is not None:
